@@ -10,10 +10,10 @@ import (
 
 func init() {
 	register(&propCheck{
-		id:    "C12",
-		level: "other",
+		id:          "C12",
+		level:       "other",
 		explanation: "Static hand-off discipline of package parallelisation, the structural condition that makes the completion instant irrelevant: (T1) every channel send or receive outside a select with an alternative is on a channel made in the same function whose partner is guaranteed — a send needs a buffer at least as large as the number of senders, a receive needs a goroutine started by the function that sends on every path, or (context channels) a preceding call of that context's cancel function; a send on an unbuffered channel whose only receiver is caller-supplied code is a violation; (T2) in each runner's select the timeout case triggers the action's stop signal before it waits for the action, and returns the timeout kind; (T3) every cancel function created is called on every exit or registered in a cancel store, and every store created locally is cancelled on every exit; (T4) the cancel store's slice is appended under the write lock, read under at least the read lock, and Cancel's loop visits every element; (T5) Parallelise starts exactly one goroutine per index below the length, each calls the action exactly once and then sends, and the collecting loop is bounded by the same length. Decided on SSA; nothing is executed or scheduled. Not decided: timing, that the action looks at its signal, goroutine counts at run time.",
-		run:   runC12,
+		run:         runC12,
 		assumptions: []string{
 			"caller-supplied actions eventually return once their stop signal has been triggered",
 			"goroutines started by a runner are scheduled eventually",
